@@ -230,6 +230,14 @@ struct Case {
     st: [String; 2],
     committed: [bool; 2],
     lines: Vec<String>,
+    /// every line of the case (for replays attached to oracle failures)
+    all_lines: Vec<String>,
+    /// per key: DUMPs that returned data and whose RESTORE has not been executed yet
+    dump_out: BTreeMap<String, i64>,
+    /// per connection: the last PTTL answered -2 (the following DUMP of a scan / fast-path batch is ignored)
+    pttl_missing: BTreeMap<String, bool>,
+    /// per connection: key of the last counted DUMP (a following PTTL -2 on a pull connection cancels it)
+    last_dump: BTreeMap<String, String>,
     /// (key, time) of RESTOREs waiting at a gate when a deleting command ran directly at dst after the commit
     f03b_window: std::collections::BTreeSet<String>,
 }
@@ -255,6 +263,11 @@ async fn settle(world: &Shared) {
 }
 
 impl Case {
+    fn log(&mut self, l: String) {
+        self.all_lines.push(l.clone());
+        self.lines.push(l);
+    }
+
     async fn new(cfg: Cfg) -> Case {
         let world: Shared = Arc::new(Mutex::new(World::default()));
         {
@@ -271,13 +284,14 @@ impl Case {
         let mut c = Case {
             world, s, d, cfg: cfg.clone(), clock: 0, ops: vec![],
             st: ["PRE_CHECK".to_string(), "PRE_CHECK".to_string()],
-            committed: [false, false], lines: vec![], f03b_window: Default::default(),
+            committed: [false, false], lines: vec![], all_lines: vec![], dump_out: Default::default(),
+            pttl_missing: Default::default(), last_dump: Default::default(), f03b_window: Default::default(),
         };
         // the coordinator sets the destination first
         let rd = submit(&c.d, setcluster_words(false, false, cfg.scan).iter().map(|w| w.as_bytes().to_vec()).collect(), 1).await;
         let rs = submit(&c.s, setcluster_words(true, false, cfg.scan).iter().map(|w| w.as_bytes().to_vec()).collect(), 1).await;
         if show_resp(&rd) != "+OK" || show_resp(&rs) != "+OK" {
-            c.lines.push(format!("tick # SETCLUSTER failed: {} {}", show_resp(&rd), show_resp(&rs)));
+            c.log(format!("tick # SETCLUSTER failed: {} {}", show_resp(&rd), show_resp(&rs)));
         }
         c.observe().await;
         c
@@ -297,14 +311,14 @@ impl Case {
             if let Some(op) = self.ops.iter_mut().find(|o| o.id == id) {
                 op.ret = Some((self.clock, shown.clone()));
             }
-            self.lines.push(format!("ret {} {}", id, shown));
+            self.log(format!("ret {} {}", id, shown));
         }
         for (i, p) in ['S', 'D'].iter().enumerate() {
             let info = submit(self.proxy(*p), to_args(&["UMCTL", "INFO"]), 2).await;
             let st = state_of(&info);
             if st != self.st[i] {
                 self.st[i] = st.clone();
-                self.lines.push(format!("st {} {}", p, st));
+                self.log(format!("st {} {}", p, st));
             }
         }
     }
@@ -352,7 +366,7 @@ impl Case {
                 };
                 let text = format!("inv {} {} {} {}{}", id, proxy, cmd, key, val.as_ref().map(|v| format!(" {}", v)).unwrap_or_default());
                 self.ops.push(ClientOp { id: *id, key: key.clone(), cmd: hc, inv: self.clock, ret: None, text: text.clone() });
-                self.lines.push(text);
+                self.log(text);
                 let fut = submit(self.proxy(*proxy), to_args(&words), 100 + *id as usize);
                 let world = self.world.clone();
                 let id = *id;
@@ -379,21 +393,37 @@ impl Case {
                 let shown_cmd = words.join(" ");
                 if target.is_redis() {
                     let n = if target == Target::RedisSrc { 0 } else { 1 };
-                    // F03b window: a deleting client command runs at dst on a normal backend connection
-                    // after the destination's commit while a RESTORE of the same key waits at a gate
-                    let name = words.first().map(|s| s.to_uppercase()).unwrap_or_default();
-                    if n == 1 && self.committed[1] && (name == "DEL" || name == "SINTERSTORE") {
-                        let key = p.args.get(1).cloned().unwrap_or_default();
-                        let w = self.world.lock().expect("world");
-                        if w.conns.iter().any(|c| c.pending.iter().any(|q| {
-                            q.args.first().map(|a| a.eq_ignore_ascii_case(b"RESTORE")).unwrap_or(false) && q.args.get(1) == Some(&key)
-                        })) {
-                            self.f03b_window.insert(String::from_utf8_lossy(&key).to_string());
+                    let reply = self.world.lock().expect("world").redis_exec(n, &p.args);
+                    // bookkeeping for the F03b predicate: which keys have a DUMP taken whose RESTORE is still to come
+                    {
+                        let name = words.first().map(|s| s.to_uppercase()).unwrap_or_default();
+                        let key = words.get(1).cloned().unwrap_or_default();
+                        let shown = show_resp(&reply);
+                        match name.as_str() {
+                            "PTTL" => {
+                                let missing = shown == ":-2";
+                                if conn.starts_with("Sx") {
+                                    self.pttl_missing.insert(conn.clone(), missing);
+                                } else if missing && self.last_dump.get(conn) == Some(&key) {
+                                    *self.dump_out.entry(key.clone()).or_insert(0) -= 1;
+                                    self.last_dump.remove(conn);
+                                }
+                            }
+                            "DUMP" if shown != "nil" => {
+                                let ignored = conn.starts_with("Sx") && self.pttl_missing.get(conn).copied().unwrap_or(false);
+                                if !ignored {
+                                    *self.dump_out.entry(key.clone()).or_insert(0) += 1;
+                                    self.last_dump.insert(conn.clone(), key.clone());
+                                }
+                            }
+                            "RESTORE" => {
+                                *self.dump_out.entry(key.clone()).or_insert(0) -= 1;
+                            }
+                            _ => {}
                         }
                     }
-                    let reply = self.world.lock().expect("world").redis_exec(n, &p.args);
                     // payloads travel as words; RESTORE shows `RESTORE key ttl payload`
-                    self.lines.push(format!("exe {} {} {} => {}", conn, target.code(), shown_cmd, show_resp(&reply)));
+                    self.log(format!("exe {} {} {} => {}", conn, target.code(), shown_cmd, show_resp(&reply)));
                     let _ = p.reply.send(reply);
                 } else {
                     let h = if target == Target::ProxyS { self.s.clone() } else { self.d.clone() };
@@ -420,7 +450,7 @@ impl Case {
                     } else {
                         shown_cmd
                     };
-                    self.lines.push(format!("exe {} {} {} => {}", conn, target.code(), short, rep));
+                    self.log(format!("exe {} {} {} => {}", conn, target.code(), short, rep));
                 }
             }
             Action::Commit { proxy } => {
@@ -431,10 +461,19 @@ impl Case {
                     return false;
                 }
                 self.committed[i] = true;
-                self.lines.push(format!("commit {}", proxy));
+                if *proxy == 'D' {
+                    // F03b predicate (= the hypothesis of C03_register_partial): the destination commits while a
+                    // DUMP of the key has been taken whose RESTORE is still to come
+                    for (k, n) in self.dump_out.iter() {
+                        if *n > 0 {
+                            self.f03b_window.insert(k.clone());
+                        }
+                    }
+                }
+                self.log(format!("commit {}", proxy));
             }
             Action::Tick => {
-                self.lines.push("tick".to_string());
+                self.log("tick".to_string());
             }
         }
         self.observe().await;
@@ -449,7 +488,7 @@ impl Case {
             out.push(format!("fin {} {} {}", k, show(&w.store[0], k), show(&w.store[1], k)));
         }
         drop(w);
-        self.lines.extend(out);
+        for l in out { self.log(l); }
     }
 }
 
@@ -508,7 +547,7 @@ fn check_case(c: &Case, complete: bool, st: &mut Stats, case_no: u64) {
     let w = c.world.lock().expect("world");
     let val = |n: usize, k: &str| w.store[n].get(k.as_bytes()).map(|v| String::from_utf8_lossy(v).to_string());
     let init_of = |k: &str| c.cfg.init.iter().find(|(a, _)| a == k).map(|(_, v)| v.clone());
-    let replay: Vec<String> = std::iter::once(c.cfg.line()).chain(c.lines.iter().cloned()).collect();
+    let replay: Vec<String> = std::iter::once(c.cfg.line()).chain(c.all_lines.iter().cloned()).collect();
     for k in c.cfg.keys_in.iter().chain(c.cfg.keys_out.iter()) {
         let inside = c.cfg.keys_in.contains(k);
         let ops: Vec<HOp> = c.ops.iter().filter(|o| &o.key == k).map(|o| {
@@ -786,7 +825,7 @@ async fn run_replay(lines: &[String], s: &mut Streams) {
             };
             if let Some(a) = a {
                 if !c.act(&a).await {
-                    c.lines.push(format!("tick # replay diverged at: {}", lines[i]));
+                    c.log(format!("tick # replay diverged at: {}", lines[i]));
                 }
                 for l in c.lines.drain(..) {
                     s.op(&l, "ok");
